@@ -65,11 +65,12 @@ struct bitset {
         TETL_PRECONDITION(len <= size());
 
         for (decltype(pos) i = 0; i < len; ++i) {
+            auto const bit = len - 1 - i; // the last character corresponds to bit 0
             if (Traits::eq(str[i + pos], one)) {
-                set(i, true);
+                set(bit, true);
             }
             if (Traits::eq(str[i + pos], zero)) {
-                set(i, false);
+                set(bit, false);
             }
         }
     }
